@@ -44,6 +44,13 @@ Theorem C01_checksum_roundtrip : forall (hash : bytes -> N) (m : msg), chk_msg h
 Proof. exact checksum_roundtrip. Qed.
 Print Assumptions C01_checksum_roundtrip.
 
+(* 5b. representation independence of the checksum: a one-item array and an inline item count the same
+   (for both values of countNonFlattenableFields) *)
+Theorem C01_checksum_repr_indep : forall (hash : bytes -> N) (cnf : bool) (m : msg),
+  chk_msg hash cnf (norm_msg m) = chk_msg hash cnf m.
+Proof. exact (fun hash cnf => proj2 (proj2 (proj2 (proj2 (chk_norm_all hash cnf))))). Qed.
+Print Assumptions C01_checksum_repr_indep.
+
 (* 6. equality of two Messages is unchanged by the trip, whatever the (symmetric) equality of leaf values is
    -- so IEEE NaN <> NaN does not matter -- for every fuel and in particular for the adequate one *)
 Theorem C01_eq_roundtrip :
@@ -59,6 +66,21 @@ Theorem C01_eq_roundtrip_adequate :
     msg_eq ieq (rt m) (rt n) = msg_eq ieq (strip_msg m) (strip_msg n).
 Proof. exact eq_roundtrip_adequate. Qed.
 Print Assumptions C01_eq_roundtrip_adequate.
+
+(* 6b. representation independence and symmetry of operator== (on Messages whose field names are unique at
+   every level, which wf Messages without non-flattenable fields are) *)
+Theorem C01_eqb_repr_indep :
+  forall (ieq : ftype -> bytes -> bytes -> bool), (forall ft a b, ieq ft a b = ieq ft b a) ->
+  forall (fuel : nat) (m n : msg), nd_msg m -> nd_msg n ->
+    msg_eqb ieq fuel (norm_msg m) (norm_msg n) = msg_eqb ieq fuel m n.
+Proof. exact msg_eqb_norm. Qed.
+Print Assumptions C01_eqb_repr_indep.
+
+Theorem C01_eqb_sym :
+  forall (ieq : ftype -> bytes -> bytes -> bool), (forall ft a b, ieq ft a b = ieq ft b a) ->
+  forall (fuel : nat) (m n : msg), nd_msg m -> nd_msg n -> msg_eqb ieq fuel m n = msg_eqb ieq fuel n m.
+Proof. exact msg_eqb_sym. Qed.
+Print Assumptions C01_eqb_sym.
 
 Theorem C01_eq_fuel_adequate :
   forall (ieq : ftype -> bytes -> bytes -> bool) (fuel k : nat) (m n : msg),
